@@ -4,7 +4,7 @@ from .. import multigen, unilifegen
 KINDS = ["arc_full_sync", "arc_crossbeam", "ogre_arc_atomic", "ogre_arc_full_sync"]
 
 class C10(Prop):
-    pid = "C10"; prop_file = ["C10.v", "C10U.v"]
+    pid = "C10"; prop_file = ["C10.v", "C10U.v", "C10FS.v"]
     rule = ("cases: sequential histories of create-listener / send / receive-some / drop-listener (with or without unconsumed events) / running_streams_count, 4-14 steps, "
             "MAX_STREAMS in {1,2,4}, BUFFER_SIZE 8; arc/atomic in lock-step with the model (incl. what every live stream still holds at the end), the other four non-log Multi kinds "
             "with the oracle only. Oracle: a stream yields exactly the events accepted during its lifetime, in order, at most once; Pending only when nothing of its lifetime is left; "
